@@ -602,8 +602,8 @@ def capacity_kept_rule(rep, fn):
     n = 0
     for pos, root, c, ps in fn.calls({"bn_assign_init", "bn_init"}):
         a0 = core.strip_casts(c["args"][0])
+        n += 1
         if a0.get("k") == "ref" and (a0["n"] in alias or (a0["n"] in parms and a0.get("dk") == "parm")):
-            n += 1
             rep.functions.add(fn.name)
             rep.violated("R-CAPKEEP", fn, "capacity-kept#%d" % n, "%s: the capacity of a caller's object is not re-declared" % fn.name,
                          "%s(%s, ...) re-declares the caller's object with the source's capacity: gcd(2^200, 3*2^201) into a 64-bit object returns 0 with 201 bits" % (c["fn"], a0["n"]), c.get("ln"))
